@@ -205,7 +205,7 @@ U8_ENTRY = 'broadcast use group_verif_axioms; proof { self.boundary_laws(); }'
 def read_fn(cfg, entry=''):
     d = dict(props=['C05', 'C20'], entry=entry)
     if not cfg['forbid_unsafe']:
-        d['closures'] = [dict(text='|end| end <= self.len()', ret='bool')]
+        d['closures'] = [dict(ordinal=0, ret='bool')]
     return d
 
 def str_fns(cfg):
@@ -480,7 +480,7 @@ def _items():
                   drop_sub=[r'^type Item'],
                   sub_rewrite=[],
                   fns_cfg=lambda cfg: {'next': dict(ret='r', requires=[SP('old(self)')], ensures=SPANNED_NEXT_ENS, props=['C14', 'C03'],
-                                                    closures=[dict(text='|token| (token, self.lexer.span())',
+                                                    closures=[dict(ordinal=0,
                                                                    params='token: Result<Token, Token::Error>',
                                                                    ret='(Result<Token, Token::Error>, Span)',
                                                                    ensures='r.0 == token && r.1.start == self.lexer.token_start && r.1.end == self.lexer.token_end')])}))
